@@ -32,6 +32,14 @@ CHECKS = {
              'to end, every enumerated segment and byte range fetched and compared with an independent scan of the stored file, and '
              'TLC evaluates the C06 clauses on each walk.',
         note=LW_NOTE + ' N is read as the stored segment count; fixture streams bbb and tears.', design='4 C06'),
+    'C08': dict(
+        technique='TLA+ spec LiveParams.tla (integer civil calendar): TLC over a calendar grid x start x depth x mup; every state '
+                  'replayed on the real DashTiming and through rendered manifests; TLC trace validation incl. relational clauses',
+        text='TLC checks every C08 clause on the implementation-shaped model of calculate_live_params over instants around day, month, '
+             'year, leap-day and century boundaries (+-1 us) for every start kind, depth and update period; each state runs on the real '
+             'DashTiming, a sample through real manifests, and TLC validates the recorded outputs (single-state and successive-instant clauses).',
+        note='Trusted: TLC, shims, patched clock, lxml projection of MPD attributes. Explicit starts are whole seconds; epoch is combined '
+             'only with instants before 2038. Known finding C08-publish-regress matched by signature.', design='4 C08'),
     'C20': dict(
         technique='TLA+ spec BufferedReader.tla: TLC exhaustive refinement check (implementation-shaped cache model vs '
                   'in-memory stream) + every model edge replayed on the real class + TLC trace validation of recorded calls',
